@@ -24,7 +24,7 @@ KEYWORDS = ["let", "into", "case", "prql", "type", "module", "internal", "func",
 
 def strip_spans(v):
     if isinstance(v, dict):
-        return {k: strip_spans(x) for k, x in v.items() if k not in ("span", "doc_comment") or (k == "doc_comment" and x is not None)}
+        return {k: strip_spans(x) for k, x in v.items() if k not in ("span", "doc_comment")}
     if isinstance(v, list):
         return [strip_spans(x) for x in v]
     return v
@@ -63,7 +63,7 @@ STR_LITS = ['"abc"', "'abc'", '"it\'s"', "'say \"hi\"'", '"a\\nb"', '"tab\\there
             '"""a"b"""', "'''a'b'''", '"\'a\\""', '"q\'\'q\\"\\"q"', "r'raw\\n'", 'r"raw"', '"{brace}"', '"x" ', '"a\\"b\'c"']
 OTHER_LITS = ["true", "false", "null", "@2020-01-31", "@12:30:05", "@2020-01-31T12:30:05", "@2020-01-31T12:30:05Z", "2days", "3hours", "10years",
               "1..5", "..5", "1..", "[1, 2, 3]", "[]", "{a, b}", '{x = 1, `y z` = 2}', 's"a{b}c"', 'f"a{b}c"', 's"{{lit}}"', "$1", "$name"]
-IDENTS = ["a", "b_c", "t.a", "`a b`", "`x-y`", "t.`a b`", "`select`", "_x", "this.a", "`let`", "`import`", "`case`", "`module`", "`enum`", "`func`", "`type`"]
+IDENTS = ["`true`", "`null`", "a", "b_c", "t.a", "`a b`", "`x-y`", "t.`a b`", "`select`", "_x", "this.a", "`let`", "`import`", "`case`", "`module`", "`enum`", "`func`", "`type`"]
 TRANSFORMS = [
     "select {a, b}", "select {x = a + 1, `y z` = b}", "derive {c = a * 2}", "derive c = a - b", "filter a > 1 && b != null", "filter (a | in 1..5)",
     "sort {a, -b}", "sort a", "take 5", "take 2..4", "group {a} (aggregate {s = sum b, n = count this})", "group a (take 1)",
@@ -114,6 +114,14 @@ def statement_sources(rng, n):
             ("comment", "# leading comment\nfrom t # trailing\n| select {a} # another"),
             ("doc", "#! doc comment\nlet x = 1"),
             ("wrap", "from t\n| select {\n    a,\n    b,\n  }\n| take \\\n  5")]
+    # targeted: ranges, unary operators and calls as operands / arguments
+    for e in ["a + (b | in 1..(2 ** c))", "a ** (b | in 1..(2 ** c))", "(1..(2 ** c)) ** 2", "a - (1..(b - c))", "f (-a) (+b) (!c) (==d)", "f (a..b) (-1..2)",
+              "(f a)..(g b)", "-(a..b)", "case [a => f b, true => (c | g)]", "f (case [a => 1])", "(a + b | f)", "{a = -b, c = (d | f)}", "f x:(a + 1) (g 1)",
+              "f x:1 y:2 z:3 a", "a ?? (b ?? c)", "(a ~= 'x') == true", "f (a == b) c", "(func a -> a + 1) 2", "f (g (h a))", "a && (b | in 1..)", "-(2 ** 3)", "(-2) ** 3",
+              "!(!a)", "[1, -2, (3 | f)]", "1..(-2)", "(-1)..2", "f - 1", "t.a + `t u`.`b c`", "a.b.c.`d e`", "(a | f | g b) + 1", "f (a | g)", "-(f a)", "(f a) ** 2", "2 ** (f a)"]:
+        out.append(("targeted", "let x = " + e))
+    for t in ["sort {-a, +b}", "sort (-a)", "take (-1)..", "select (a)", "select {(a), (b + 1)}", "filter (a | in (b - 1)..(c ** 2))", "derive {x = a - -b, y = a--b}"]:
+        out.append(("targeted", "from t | " + t))
     # random pipelines
     for _ in range(n):
         k = rng.randint(1, 5)
@@ -151,12 +159,22 @@ def classify_ast_diff(src, d):
         return "fmt-float-printed-without-fraction"
     if isinstance(a, str) and isinstance(b, str) and ("'" in a and '"' in a):
         return "fmt-string-mixed-quotes"
+    if re.search(r"/Func/named_params/\d+/ty$", path) and b is None:
+        return "fmt-named-param-type-dropped"
+    return None
+
+
+def classify_text(formatted):
+    if re.search(r"\.\.\S+ \*\* ", formatted):
+        return "fmt-range-bound-pow-not-parenthesised"
     return None
 
 
 def run(ctx):
     br = vlib.standard_proof_obligations(ctx, ["PrqlModel.Props.C14"], ["Fmt", "Pratt", "Lex"],
-        required_theorems=["fmt_parse_roundtrip", "fmt_compat", "literal_roundtrip_string_counterexample", "ident_roundtrip_counterexample", "fmt_idempotent"])
+        required_theorems=["fmt_parse_roundtrip", "fmt_compat", "fmt_idempotent", "literal_roundtrip_string_counterexample",
+                           "literal_roundtrip_string_partial", "literal_roundtrip_float_counterexample", "literal_roundtrip_int_bounded",
+                           "ident_roundtrip_counterexample", "fmt_keywords_counterexample", "backtick_roundtrip", "ident_roundtrip_partial_bounded"])
     ctx.rule = ("(i) expression fragment: every (parent, child, side) operator triple, folding cases and random trees up to depth 6, written "
                 "with minimal and with full parentheses after `let x =`: real formatter text vs the Lean model fmtExpr, re-parse, second "
                 "formatting; (ii) generated statement-level sources (every literal kind, backtick identifiers, named arguments, nested "
@@ -185,12 +203,18 @@ def run(ctx):
     trees = [t for t in dict.fromkeys(trees) if not any(n[0] == "bin" and n[1] == "RegexSearch" and False for n in G.nodes(t))]
     model = drv_batch([f"c14fmt\t{G.sexp(t)}" for t in trees])
     srcs, meta = [], []
+    nprec_ok = nprec_bad = 0
     for t, m in zip(trees, model):
         f = dict(x.split("=", 1) for x in m.split("\t") if "=" in x)
         if "src" not in f:
             ctx.disagreement("fmtExpr", "model driver gave no answer", {"tree": G.sexp(t), "answer": m})
             continue
         mfmt = dec(f["fmt"])
+        if f.get("prec") == "ok":
+            nprec_ok += 1
+        elif f.get("prec") == "bad":
+            nprec_bad += 1
+            ctx.disagreement("fmtExpr vs PrecU.pr fmtNp", "the two formulations of the formatter model differ", {"tree": G.sexp(t)})
         for variant, text in (("min", dec(f["src"])), ("full", G.full_paren(t))):
             srcs.append(G.PRELUDE + "let x = " + text)
             meta.append((t, variant, mfmt))
@@ -199,15 +223,17 @@ def run(ctx):
     for (t, variant, mfmt), r in zip(meta, res):
         if r is None or r.get("fmt") is None:
             continue
-        line = [l for l in r["fmt"].split("\n") if l.startswith("let x = ")]
-        if len(line) != 1 or "\n(" in r["fmt"] or len(line[0]) > 48:
-            ctx.count("fmtExpr: long or wrapped output (not compared with the single-line model)")
+        last = r["fmt"].rsplit("\nlet x = ", 1)[-1]
+        if "\n" in last.rstrip("\n"):
+            ctx.count("fmtExpr: wrapped output (not compared with the single-line model)")
             continue
         nmodel += 1
-        if line[0][len("let x = "):] != mfmt:
+        if last.rstrip("\n") != mfmt:
             nbad += 1
-            ctx.disagreement("fmtExpr", f"formatter prints `{line[0][8:]}`, model fmtExpr gives `{mfmt}`", {"tree": G.sexp(t), "variant": variant})
+            ctx.disagreement("fmtExpr", f"formatter prints `{last.rstrip(chr(10))}`, model fmtExpr gives `{mfmt}`", {"tree": G.sexp(t), "variant": variant})
     ctx.obligation("correspondence: formatter text = Model.Fmt.fmtExpr on the expression fragment", nbad == 0 and nmodel > 0, f"{nmodel} compared")
+    ctx.obligation("correspondence: fmtExpr = rendering of PrecU.pr fmtNp on operator trees (ties theorem fmt_parse_roundtrip to the text model)",
+                   nprec_bad == 0 and nprec_ok > 0, f"{nprec_ok} operator trees")
 
     # ---------------- model of literal / identifier display vs the real formatter
     display_tie(ctx)
@@ -310,18 +336,23 @@ def check_sources(ctx, sources, compile_too):
             ctx.sample({"kind": kind, "source": s[:160], "formatted": text[:160]})
         replay = {"prql": s, "formatted": text}
         if "pl" not in pl2:
-            fid = "fmt-keyword-identifier-printed-bare" if re.search(r"`(" + "|".join(KEYWORDS) + r")`", s) else None
+            fid = "fmt-keyword-identifier-printed-bare" if re.search(r"`(" + "|".join(KEYWORDS + ["true", "false", "null"]) + r")`", s) else None
             if fid is None and re.search(r"\d\.\d|\de\d", s) and re.search(r"\d{19,}", text):
                 fid = "fmt-float-printed-without-fraction"
+            if fid is None and any(("'" in m and '"' in m) for m in re.findall(r"(?:\"(?:[^\"\\]|\\.)*\"|'(?:[^'\\]|\\.)*')", s)):
+                fid = "fmt-string-mixed-quotes"
             ctx.oracle_failure(fid, f"formatted text does not parse: {text[:120]!r}", {**replay, "observed": pl2})
             continue
         d = first_diff(strip_spans(pl["pl"]), strip_spans(pl2["pl"]))
         if d:
-            fid = classify_ast_diff(s, d)
-            if fid is None and re.search(r"`(" + "|".join(KEYWORDS) + r")`", s):
+            fid = classify_ast_diff(s, d) or classify_text(text)
+            if fid is None and re.search(r"`(" + "|".join(KEYWORDS + ["true", "false", "null"]) + r")`", s):
                 fid = "fmt-keyword-identifier-printed-bare"
             ctx.oracle_failure(fid, f"re-parsed tree differs at {d[0]}: {json.dumps(d[1])[:80]} became {json.dumps(d[2])[:80]} (formatted: {text[:100]!r})",
                                {**replay, "path": d[0]})
+            continue
+        if f2.get("prql") != text and sorted(re.split(r"\s+", f2.get("prql", ""))) == sorted(re.split(r"\s+", text)) and len(re.findall(r"\b\w+:", text)) >= 2:
+            ctx.oracle_failure("fmt-named-args-order-unstable", f"named arguments are printed in a different order by the second pass: {text[:80]!r} vs {f2['prql'][:80]!r}", {**replay, "second": f2})
             continue
         if f2.get("prql") != text:
             ctx.oracle_failure(None, f"formatting is not idempotent: second pass gives {str(f2.get('prql', f2))[:120]!r}", {**replay, "second": f2})
